@@ -11,7 +11,7 @@ use vmodel::wire::{hex_short, Enc};
 pub const DEF: PropDef = PropDef {
     id: "C11",
     title: "Unknown enumerated code points are accepted and preserved, not rejected",
-    rule: "complete enumeration per field: for each of 45 (field, enclosing structure) pairs every value of the field's domain (256 or 65536; alert level x description and \
+    rule: "complete enumeration per field: for each of 47 (field, enclosing structure) pairs every value of the field's domain (256 or 65536; alert level x description and \
            hash x signature as 65536 pairs) is written into an otherwise well-formed structure built by the model encoders, parsed, and read back from the parsed value. \
            Surrounding values come from k seeded template variants (quick k = 2, thorough k = 25). Non-trivial = a value that has no named constant in the harness's IANA tables; \
            distinct by (field, value).",
@@ -235,6 +235,34 @@ fn specs() -> Vec<Spec> {
         Spec { name: "signature algorithm (CertificateRequest)", bits: 16, registry: None, probe: |v, t| {
             let h = MHs::CertificateRequest { types: t.small_blob(4), sigalgs: Some(vec![t.u16(), v as u16]), cas: vec![t.small_blob(10)] };
             match parse_hs(&h.to_bytes())? { TlsMessageHandshake::CertificateRequest(c) => c.sig_hash_algs.and_then(|l| l.get(1).copied()).map(|x| x as u32).ok_or("missing".into()), o => Err(format!("{:?}", o)) }
+        } },
+        Spec { name: "signature algorithm (CertificateRequest whose list reads like an extension block)", bits: 16, registry: None, probe: |v, t| {
+            // supported_signature_algorithms = {0x000d, 0x0004, 0x0002, v}: as bytes `00 0d 00 04 00 02 vv vv`, i.e. what the TLS 1.3 form of
+            // this message would carry as a signature_algorithms extension; with three certificate types the first byte reads as a context length
+            let types = vec![1u8, t.u8() | 1, 64];
+            let h = MHs::CertificateRequest { types: types.clone(), sigalgs: Some(vec![0x000d, 0x0004, 0x0002, v as u16]), cas: vec![t.small_blob(10)] };
+            match parse_hs(&h.to_bytes())? {
+                TlsMessageHandshake::CertificateRequest(c) => {
+                    if c.cert_types != types {
+                        return Err(format!("certificate types {:?} read back as {:?}", types, c.cert_types));
+                    }
+                    match &c.sig_hash_algs {
+                        Some(l) if l.len() == 4 && l[..3] == [0x000d, 0x0004, 0x0002] => Ok(l[3] as u32),
+                        o => Err(format!("four algorithms written, read back {:?}", o)),
+                    }
+                }
+                o => Err(format!("{:?}", o)),
+            }
+        } },
+        Spec { name: "CT version (nine SCTs, list of 1080 bytes)", bits: 8, registry: Some(&ia::CT_VERSION), probe: |v, t| {
+            // list lengths 0x0400..0x04ff start with the byte a DER OCTET STRING starts with
+            let l: Vec<MSct> = (0..9u8).map(|i| MSct { version: if i % 2 == 0 { v as u8 } else { 0 }, id: vec![i; 32], timestamp: t.u64(), extensions: vec![], hash: 4, sign: 3, alg_present: true, signature: vec![0x30; 71] }).collect();
+            let e = encode_sct_list(&l);
+            let got = parse_ct_signed_certificate_timestamp_list(&e.buf).map_err(err)?.1;
+            if got.len() != 9 {
+                return Err(format!("nine SCTs written ({} bytes), {} read back", e.buf.len(), got.len()));
+            }
+            Ok(got[8].version.0 as u32)
         } },
         Spec { name: "certificate type (CertificateRequest)", bits: 8, registry: None, probe: |v, t| {
             let h = MHs::CertificateRequest { types: vec![t.u8(), v as u8], sigalgs: if t.bool() { Some(vec![0x0401]) } else { None }, cas: vec![] };
